@@ -308,6 +308,35 @@ example : (match parseLineOf .a64 l1 with
     | .err _ => false) = true := by
   decide +kernel
 
+/-- **post-index by a register, from the TEXT** `ld1 {v0.4s}, [x2], x1`: the parser leaves its own dictionary as
+    `post_indexed` (`PostIdx.other`), the glue hands `Isa.Val.absent` on, the base `x2` is appended to `src_dst` with the
+    post-index flag, and the post-indexed register-change query answers `{x2: None}` — not an exception (before the
+    repair of `get_reg_changes`: `KeyError: 'value'`, and with it no analysis of any file that contains such a line) -/
+def lr : Txt := [108, 100, 49, 32, 123, 118, 48, 46, 52, 115, 125, 44, 32, 91, 120, 50, 93, 44, 32, 120, 49]   -- ld1 {v0.4s}, [x2], x1
+def ls : Txt := [115, 116, 114, 32, 100, 49, 44, 32, 91, 120, 50, 93]                                          -- str d1, [x2]
+def ll : Txt := [108, 100, 114, 32, 100, 51, 44, 32, 91, 120, 50, 93]                                          -- ldr d3, [x2]
+example : (match parseLineOf .a64 lr with
+    | .ok f =>
+      let s := stagesOf .a64 model f
+      (match s.roles.sem.srcDst with
+       | [.wb 1 b false true .absent] => b.name == [50] && b.pfx == some px
+       | _ => false) &&
+      s.roles.hasLd && !s.roles.hasSt &&
+      (match s.changesPost with | .ok [(n, none)] => n == [120, 50] | _ => false) &&
+      (match s.changes with | .ok [(n, none)] => n == [118, 48] | _ => false)
+    | .err _ => false) = true := by
+  decide +kernel
+
+/-- … and the whole analysis of `str d1, [x2]` / `ld1 {v0.4s}, [x2], x1` / `ldr d3, [x2]` / `add x2, x2, #8`: the `ld1` itself
+    still loads what the store wrote (store→load edge 1 → 2: the base is unchanged up to there), its written-back base
+    reaches the later readers of `x2` with `p_index_latency` (2 → 3, 2 → 4, weight 2), and the `ldr` behind it has NO
+    store→load edge from line 1 (only its own load node): the base is unknown after the register post-index -/
+example : checkOk (analyseA64 model opts (joinLines [ls, lr, ll, l4])) (fun r =>
+    r.analysis.edges.map (fun e => (e.src.line, e.src.load, e.dst.line, e.w)) ==
+      [(1, false, 2, 0), (2, true, 2, 0), (2, false, 3, 2), (2, false, 4, 2), (3, true, 3, 4)] &&
+    r.kernel.length == 4) = true := by
+  decide +kernel
+
 /-- outcomes other than an analysis: a line the AArch64 parser rejects, `--lines` that selects nothing -/
 example : (match analyseA64 model opts (joinLines [l1, [91, 91], l4]) with | .parseError 2 _ => true | _ => false) = true := by
   decide +kernel
